@@ -192,6 +192,26 @@ def run(ctx, replay=None):
                 recs.append({'kind': 'op', 'op': 'grid_rot', 'a': o, 'b': lab, 'res': [[ids[id(c)] for c in row] for row in rg2.objects]})
                 back = (g * OF[o]) * (-OF[o])
                 recs.append({'kind': 'law', 'op': 'grid_rot_inverse', 'lhs': [[ids[id(c)] for c in row] for row in back.objects], 'rhs': lab})
+    # operands with a history: the Agent's setters and the dynamics mutate a Transform / Grid in place between uses
+    for k in range(200 if ctx.quick else 3000):
+        p0 = [rng.randint(-5, 5), rng.randint(-5, 5)]
+        p1 = [rng.randint(-5, 5), rng.randint(-5, 5)]
+        o0, o1 = rng.choice(ORIS), rng.choice(ORIS)
+        t = Transform(P(p0), OF[o0])
+        (-t), (t * t), (t * P(p1))          # use it
+        ag = Agent(P(p0), OF[o0])
+        (-ag.transform), ag.front()
+        if k % 2:
+            t.position = P(p1); ag.position = P(p1)
+            tv = {'p': p1, 'o': o0}
+        else:
+            t.orientation = OF[o1]; ag.orientation = OF[o1]
+            tv = {'p': p0, 'o': o1}
+        recs.append({'kind': 'op', 'op': 't_neg', 'a': tv, 'b': 0, 'res': tj(-t)})
+        recs.append({'kind': 'op', 'op': 't_neg', 'a': tv, 'b': 0, 'res': tj(-ag.transform)})
+        recs.append({'kind': 'op', 'op': 't_mul', 'a': tv, 'b': tv, 'res': tj(t * t)})
+        recs.append({'kind': 'op', 'op': 'front', 'a': tv, 'b': 0, 'res': pj(ag.front())})
+        recs.append({'kind': 'law', 'op': 't_inverse_after_mutation', 'lhs': tj(t * (-t)), 'rhs': tj(Transform(Position(0, 0), Orientation.F))})
     # random large coordinates (negative included)
     n = 5000 if ctx.quick else 100000
     lim = 2 ** 29
